@@ -451,9 +451,9 @@ pub fn structured_faults(doc: &J, sink: &mut dyn FnMut(Faulted)) {
             J::Num(n) => {
                 let mut alts: Vec<String> = NUM_ALTS.iter().map(|s| s.to_string()).collect();
                 if let Ok(i) = n.parse::<i64>() {
-                    alts.push((i + 1).to_string());
-                    alts.push((i - 1).to_string());
-                    alts.push((-i).to_string());
+                    alts.push(i.wrapping_add(1).to_string());
+                    alts.push(i.wrapping_sub(1).to_string());
+                    alts.push(i.wrapping_neg().to_string());
                 }
                 alts.extend(other_nums.iter().cloned());
                 for alt in alts {
@@ -515,6 +515,135 @@ pub fn structured_faults(doc: &J, sink: &mut dyn FnMut(Faulted)) {
             }
         }
     }
+}
+
+fn degenerate_of(j: &J) -> J {
+    match j {
+        J::Num(_) => J::Num("0".into()),
+        J::Str(_) => J::Str("\"\"".into()),
+        J::Arr(_) => J::Arr(vec![]),
+        J::Obj(_) => J::Null,
+        J::Bool(_) => J::Bool(false),
+        J::Null => J::Num("0".into()),
+    }
+}
+
+/// Several fields made degenerate AT ONCE (number -> 0, string -> "", array -> [],
+/// object -> null): `mask` selects among the nodes at depth 1..=3. Coordinated edits such
+/// as {k: 0, t: [], n: 0} are reachable only this way. Returns the candidate node count
+/// through `count_only` when mask is None.
+pub fn degenerate_nodes(doc: &J) -> Vec<Path> {
+    paths(doc)
+        .into_iter()
+        .filter(|p| !p.is_empty() && p.len() <= 3)
+        .collect()
+}
+
+pub fn degenerate_combo(doc: &J, nodes: &[Path], mask: u64) -> Option<Faulted> {
+    let mut d = doc.clone();
+    let mut what = Vec::new();
+    // apply deepest first so that parents replaced later do not invalidate child paths
+    let mut chosen: Vec<&Path> = nodes
+        .iter()
+        .enumerate()
+        .filter(|(i, _)| mask & (1u64 << i) != 0)
+        .map(|(_, p)| p)
+        .collect();
+    if chosen.len() < 2 {
+        return None;
+    }
+    chosen.sort_by_key(|p| std::cmp::Reverse(p.len()));
+    for p in chosen {
+        if let Some(x) = get_mut(&mut d, p) {
+            let dg = degenerate_of(x);
+            *x = dg;
+            what.push(describe(doc, p));
+        }
+    }
+    Some(Faulted {
+        kind: "VALUE_ALTER",
+        what: format!("made degenerate together: {}", what.join(", ")),
+        text: render(&d),
+    })
+}
+
+/// One random structured fault (same repertoire as `structured_faults`), tree to tree.
+/// `pick(n)` must return a number in 0..n.
+pub fn random_fault(doc: &J, pick: &mut dyn FnMut(usize) -> usize) -> Option<(J, String)> {
+    let all = paths(doc);
+    if all.is_empty() {
+        return None;
+    }
+    let p = all[pick(all.len())].clone();
+    let here = describe(doc, &p);
+    let mut d = doc.clone();
+    let node = get(doc, &p)?.clone();
+    let what;
+    match node {
+        J::Obj(m) => {
+            if m.is_empty() {
+                return None;
+            }
+            let i = pick(m.len());
+            if let Some(J::Obj(mm)) = get_mut(&mut d, &p) {
+                match pick(3) {
+                    0 => {
+                        mm.remove(i);
+                        what = format!("delete member {} of {}", m[i].0, here);
+                    }
+                    1 => {
+                        let c = mm[i].clone();
+                        mm.insert(i + 1, c);
+                        what = format!("duplicate member {} of {}", m[i].0, here);
+                    }
+                    _ => {
+                        let dg = degenerate_of(&mm[i].1);
+                        mm[i].1 = dg;
+                        what = format!("member {} of {} made degenerate", m[i].0, here);
+                    }
+                }
+            } else {
+                return None;
+            }
+        }
+        J::Arr(a) => {
+            let v = match pick(4) {
+                0 => vec![],
+                1 if !a.is_empty() => a[..a.len() - 1].to_vec(),
+                2 if !a.is_empty() => {
+                    let mut v = a.clone();
+                    v.push(a[a.len() - 1].clone());
+                    v
+                }
+                _ => {
+                    let mut v = a.clone();
+                    v.reverse();
+                    v
+                }
+            };
+            what = format!("array at {} altered", here);
+            *get_mut(&mut d, &p)? = J::Arr(v);
+        }
+        J::Num(_) => {
+            let alt = NUM_ALTS[pick(NUM_ALTS.len())];
+            what = format!("{} := {}", here, alt);
+            *get_mut(&mut d, &p)? = parse(alt).unwrap_or(J::Null);
+        }
+        J::Str(_) => {
+            let alt = STR_ALTS[pick(STR_ALTS.len())];
+            what = format!("{} := {}", here, alt);
+            *get_mut(&mut d, &p)? = parse(alt).unwrap_or(J::Null);
+        }
+        J::Bool(b) => {
+            what = format!("{} flipped", here);
+            *get_mut(&mut d, &p)? = J::Bool(!b);
+        }
+        J::Null => {
+            what = format!("{} := 0", here);
+            *get_mut(&mut d, &p)? = J::Num("0".into());
+        }
+    }
+    Some((d, what))
 }
 
 /// Every truncation offset (on UTF-8 boundaries), 0..len-1.
